@@ -340,7 +340,16 @@ func (c *fctx) collect(e ast.Node, write bool, out *[]access) {
 		return
 	case *ast.CallExpr:
 		c.collect(t.Fun, false, out)
+		syncCall := false
+		if sel, ok := t.Fun.(*ast.SelectorExpr); ok {
+			if id, ok := sel.X.(*ast.Ident); ok && c.in.syncName[id.Name] {
+				syncCall = true // atomic.AddInt64(&mock.n, 1): the simulated package owns the access
+			}
+		}
 		for _, a := range t.Args {
+			if u, ok := a.(*ast.UnaryExpr); ok && syncCall && u.Op == token.AND {
+				continue
+			}
 			c.collect(a, false, out)
 		}
 		return
